@@ -30,7 +30,7 @@ class Gen:
         if k == 0: return S(r.choice(["", "x", "y", "xy", "hello", "a b"]))
         if k == 1: return N(r.choice(NUMS))
         if k == 2: return {"BOOL": r.random() < 0.5}
-        if k == 3: return {"NULL": True}
+        if k == 3: return {"NULL": self.r.random() < 0.8}      # {"NULL": false} is NULL too (both SDK clients normalise it)
         if k == 4: return {"B": r.choice(["", "\x01\x02", "xy", "\xff\x00"])}
         return S(r.choice(IDXVALS))
 
@@ -58,6 +58,7 @@ class Gen:
             if q < 0.04 and schema["range"]: del k[schema["range"][0]]
             elif q < 0.08: k[hn] = N("1") if ht == "S" else S("a")
             elif q < 0.10: del k[hn]
+            elif q < 0.25: k["zz"] = S("extra")      # more than the key attributes
         return k
 
     def item_of(self, t):
@@ -67,6 +68,9 @@ class Gen:
             it["g"] = S(r.choice(IDXVALS)) if r.random() < 0.95 else N("1")
         if r.random() < 0.5:
             it["f"] = S(r.choice(IDXVALS)) if r.random() < 0.95 else {"BOOL": True}
+        if r.random() < 0.04:
+            # an attribute literally named like a name placeholder: it is an ordinary attribute, no expression touches it
+            it[r.choice(["#g", "#n", "#a"])] = S(r.choice(IDXVALS))
         for name in ["n", "s", "ss", "l", "m", "x"]:
             if r.random() < 0.3:
                 it[name] = {"n": lambda: N(r.choice(NUMS)), "s": lambda: S(r.choice(["", "x", "hello"])),
@@ -376,7 +380,7 @@ class ExprGen(Gen):
         if t == "N": return N(r.choice(NUMS))
         if t == "B": return {"B": r.choice(["", "x", "xy", "\x01\x02", "\xff"])}
         if t == "BOOL": return {"BOOL": r.random() < 0.5}
-        if t == "NULL": return {"NULL": True}
+        if t == "NULL": return {"NULL": r.random() < 0.85}
         if t == "L": return {"L": [self.typed_value(r.choice(TYPES[:5]), 0) for _ in range(r.randrange(0, 4))]}
         if t == "M": return {"M": {k: self.typed_value(r.choice(TYPES[:6] if depth > 0 else TYPES[:5]), depth - 1)
                                    for k in r.sample(["x", "y", "z"], r.randrange(0, 3))}}
@@ -600,6 +604,9 @@ class ExprGen(Gen):
         order = [c for c in ["SET", "REMOVE", "ADD", "DELETE"] if clauses[c]]
         r.shuffle(order)
         e = " ".join("%s %s" % (c, ", ".join(clauses[c])) for c in order)
+        if ctx["names"] and r.random() < 0.25:
+            # an attribute literally named like a placeholder of the expression: an ordinary attribute, left alone
+            ctx["item"][r.choice(sorted(ctx["names"]))] = S("keep")
         return dict(op="lang_update", expr=e, item=ctx["item"], names=ctx["names"], values=ctx["values"])
 
     # ---- malformed: token-level mutations of valid sentences, stray bytes ----
